@@ -2,6 +2,7 @@ package main
 
 import (
 	"fmt"
+	"go/constant"
 	"go/token"
 	"go/types"
 	"sort"
@@ -369,12 +370,23 @@ func (cs *CondSpace) formulaOf(v ssa.Value) *cformula {
 				ph, isPhi = x.Y.(*ssa.Phi)
 				other = x.X
 			}
-			if isPhi && isNilConst(other) && !cs.backTo[ph.Block()] {
+			oc, otherIsConst := stripConv(other).(*ssa.Const)
+			if isPhi && otherIsConst && !cs.backTo[ph.Block()] {
 				cs.phiDepth++
 				f := &cformula{op: 'p', phi: ph}
 				for _, e := range ph.Edges {
-					if isNilConst(e) {
-						if x.Op == token.EQL {
+					if ec, isC := stripConv(e).(*ssa.Const); isC {
+						same := (ec.Value == nil && oc.Value == nil) || (ec.Value != nil && oc.Value != nil && constant.Compare(ec.Value, token.EQL, oc.Value))
+						if same == (x.Op == token.EQL) {
+							f.subs = append(f.subs, &cformula{op: 'T'})
+						} else {
+							f.subs = append(f.subs, &cformula{op: 'F'})
+						}
+						continue
+					}
+					if oc.Value == nil && certainlyNonNil(e) {
+						// errors.New / fmt.Errorf / a fresh allocation is never nil
+						if x.Op == token.NEQ {
 							f.subs = append(f.subs, &cformula{op: 'T'})
 						} else {
 							f.subs = append(f.subs, &cformula{op: 'F'})
@@ -857,4 +869,53 @@ func (cs *CondSpace) VirtualReturns() []VRet {
 		expand(r, append([]ssa.Value(nil), r.Results...), cs.Reach(r), 0)
 	}
 	return out
+}
+
+// ResolveUnder: the concrete (phi-free) values v can have on the ways through the function that satisfy cond:
+// non-loop phis are expanded, keeping only the edges whose condition is compatible with cond.
+func (cs *CondSpace) ResolveUnder(v ssa.Value, cond Bits) []ssa.Value {
+	var out []ssa.Value
+	seen := map[ssa.Value]bool{}
+	var walk func(v ssa.Value, cond Bits, depth int)
+	walk = func(v ssa.Value, cond Bits, depth int) {
+		v = stripConv(v)
+		ph, ok := v.(*ssa.Phi)
+		if !ok || cs.backTo[ph.Block()] || depth > 6 {
+			if !seen[v] {
+				seen[v] = true
+				out = append(out, v)
+			}
+			return
+		}
+		blk := ph.Block()
+		for i, pred := range blk.Preds {
+			edge := cs.False()
+			for si, sb := range pred.Succs {
+				if sb == blk {
+					edge = or(edge, cs.EdgeCond(pred, si))
+				}
+			}
+			c2 := and(cond, edge)
+			if cs.Satisfiable(c2) {
+				walk(ph.Edges[i], c2, depth+1)
+			}
+		}
+	}
+	walk(v, cond, 0)
+	return out
+}
+
+// certainlyNonNil: v is the result of an error constructor or a fresh allocation.
+func certainlyNonNil(v ssa.Value) bool {
+	v = stripConv(v)
+	switch x := v.(type) {
+	case *ssa.Alloc, *ssa.MakeMap, *ssa.MakeChan, *ssa.MakeSlice, *ssa.MakeClosure:
+		return true
+	case *ssa.Call:
+		switch calleeOf(&x.Call).Name() {
+		case "fmt.Errorf", "errors.New":
+			return true
+		}
+	}
+	return false
 }
